@@ -6,6 +6,7 @@ import (
 	"os"
 	"runtime"
 	"strings"
+	"sync/atomic"
 	"time"
 
 	"gosim/hb"
@@ -28,22 +29,22 @@ func (v Violation) Signature() string { return v.Prop + " " + v.Oracle }
 
 // Outcome is the result of one simulated run.
 type Outcome struct {
-	Profile    string            `json:"profile"`
-	Seed       uint64            `json:"seed"`
-	Reason     string            `json:"reason"`
-	Steps      uint64            `json:"steps"`
-	FakeNS     int64             `json:"fake_ns"`
-	Digest     string            `json:"digest"`
-	NEv        int               `json:"n_events"`
-	Violations []Violation       `json:"violations,omitempty"`
-	Stats      Stats             `json:"stats"`
-	Nontrivial bool              `json:"nontrivial"`
-	Panic      string            `json:"panic,omitempty"`
-	Leaked     int               `json:"leaked"`
-	PlanSig    string            `json:"plan_sig"`
-	Trace      []string          `json:"trace,omitempty"`
-	Sample     string            `json:"sample,omitempty"`
-	Extra      map[string]int    `json:"extra,omitempty"`
+	Profile    string         `json:"profile"`
+	Seed       uint64         `json:"seed"`
+	Reason     string         `json:"reason"`
+	Steps      uint64         `json:"steps"`
+	FakeNS     int64          `json:"fake_ns"`
+	Digest     string         `json:"digest"`
+	NEv        int            `json:"n_events"`
+	Violations []Violation    `json:"violations,omitempty"`
+	Stats      Stats          `json:"stats"`
+	Nontrivial bool           `json:"nontrivial"`
+	Panic      string         `json:"panic,omitempty"`
+	Leaked     int            `json:"leaked"`
+	PlanSig    string         `json:"plan_sig"`
+	Trace      []string       `json:"trace,omitempty"`
+	Sample     string         `json:"sample,omitempty"`
+	Extra      map[string]int `json:"extra,omitempty"`
 }
 
 // Profile describes how a property is exercised and judged.
@@ -129,6 +130,7 @@ func RunPlan(pr *Profile, p *Plan, keep bool) *Outcome {
 		}
 		e := NewEnv(p.Seed, c)
 		e.Keep = keep
+		e.FreeMode = p.Free
 		if p.Sched.MaxSteps != 0 {
 			e.Knobs = p.Sched
 		}
@@ -231,8 +233,12 @@ func RunPlan(pr *Profile, p *Plan, keep bool) *Outcome {
 		out.Steps, out.FakeNS, out.Digest, out.NEv = e.Step, int64(e.Now()), e.Digest(), e.NEv
 		out.Stats = e.Stats
 		out.Trace = e.Trace
+		TeardownOut.Store(out)
+		TeardownPlan.Store(p)
+		TeardownSince.Store(realNow())
 		w.teardown()
 	})
+	TeardownSince.Store(0)
 	if pan != nil {
 		s := fmt.Sprint(pan)
 		if strings.Contains(s, "blocked goroutines remain") {
@@ -244,10 +250,19 @@ func RunPlan(pr *Profile, p *Plan, keep bool) *Outcome {
 	return out
 }
 
+// Teardown state for the worker's real-time watchdog: a goroutine of the code
+// under test that spins forever (no blocking operation) keeps the bubble from
+// ending; the worker then reports the run and exits.
+var (
+	TeardownSince atomic.Int64 // unix nanos of the start of the current teardown, 0 = none
+	TeardownOut   atomic.Pointer[Outcome]
+	TeardownPlan  atomic.Pointer[Plan]
+)
+
 // teardown frees every goroutine so that the bubble can end.
 func (w *World) teardown() {
 	e := w.Env
-	e.frozen = true
+	e.frozen.Store(true)
 	simrt.Free()
 	w.stop()
 	if w.Client != nil {
